@@ -68,6 +68,8 @@ def run(ctx):
                                 "f64_from_parts converts a scratch buffer that is not provably cleared and ASCII-filled (%s)" % why,
                                 f.loc(f.blocks[bi]["term"].get("line")))
         witnesses(ctx)
+        from .. import selftest
+        selftest.check_unchecked(ctx, ctx.rule("CONTROLS", "positive controls: the detectors fire on the seeded fixtures crate"))
 
 
 # ---------------------------------------------------------------- (A)
